@@ -672,3 +672,34 @@ Lemma tcp_stall_now_example :
 Proof.
   split; eexists; (split; [vm_compute; reflexivity|]); repeat split; reflexivity.
 Qed.
+
+(* ---- the slot kept free for the close request ---- *)
+Lemma q_step_inv cap q e : 0 < cap -> q < cap -> q_step true cap q e < cap.
+Proof.
+  intros Hc Hq. destruct e as [n|k]; cbn [q_step].
+  - unfold q_admits. destruct (1 <=? n) eqn:E1; cbn [andb]; [|exact Hq].
+    destruct (n <? cap - q) eqn:E2; [|exact Hq].
+    apply N.ltb_lt in E2. lia.
+  - lia.
+Qed.
+
+Lemma q_fold_inv cap evs : 0 < cap -> forall q, q < cap -> fold_left (q_step true cap) evs q < cap.
+Proof.
+  intro Hc. induction evs as [|e evs IH]; intros q Hq; cbn [fold_left]; [exact Hq|].
+  apply IH. apply q_step_inv; assumption.
+Qed.
+
+Lemma close_request_always_queued (evs : list qev) :
+  q_close_queued segment_tree_capacity (q_run true segment_tree_capacity evs) = true.
+Proof.
+  unfold q_close_queued, q_run. apply N.ltb_lt. apply q_fold_inv; reflexivity.
+Qed.
+
+Lemma close_request_slot_refuted :
+  exists evs, q_close_queued segment_tree_capacity (q_run false segment_tree_capacity evs) = false.
+Proof. exists [QWrite 4071; QWrite 25]. vm_compute. reflexivity. Qed.
+
+Example q_run_example :
+  q_run true segment_tree_capacity [QWrite 4071; QWrite 25; QDrain 30; QWrite 25] = 4066 /\
+  q_run false segment_tree_capacity [QWrite 4071; QWrite 25; QDrain 30; QWrite 25] = 4091.
+Proof. vm_compute. split; reflexivity. Qed.
